@@ -6,6 +6,7 @@
 size_t heap_used_sum(mi_heap_t* h, size_t* pages);
 bool g_busy_pub(int slot);
 bool forced_abandon_possible_pub();
+extern "C" int sim_peek_page(const void* p, uintptr_t keys[2], void** area_start, size_t* area_size);
 static bool local_plain_small(Block* b) {
   return b && b->prog == T->prog && b->heap >= 0 && H.heaps[b->heap].prog == T->prog && b->align == 0 && b->offset == 0 && !b->odd_origin && b->usable == b->req && b->usable >= 8 && b->usable + 8 <= 8192 && b->filled;
 }
@@ -100,6 +101,22 @@ void oracle_misuse_op(const Op& op) {
     void* p = b->p; const size_t req = b->req; const int mh = b->heap; delete b;
     mi_free(p);
     uint64_t forged = mix64(op.a, 0xF0F0) | 1;      // an odd value never decodes to an aligned in-page pointer by accident of alignment alone
+    {
+      // aimed: one time in three the forged word is one that decodes (with the page's own keys, which a program that can read its heap
+      // may know) to a chosen address close to the page but outside it: a few 64 KiB slices before its area or behind it, in the same segment
+      uintptr_t keys[2]; void* astart = nullptr; size_t asize = 0;
+      if ((op.a % 3) == 0 && sim_peek_page(p, keys, &astart, &asize)) {
+        const uintptr_t seg = (uintptr_t)p & ~(((uintptr_t)32 << 20) - 1), a0 = (uintptr_t)astart, a1 = a0 + asize;
+        const uint64_t r = mix64(op.a, 0xA1ED);
+        const uintptr_t k = 1 + (r % 7), off = ((r >> 8) % 4096) * 16;
+        uintptr_t target = ((r >> 20) & 1) ? (a0 & ~(uintptr_t)0xFFFF) - k * 65536 + off : ((a1 + 0xFFFF) & ~(uintptr_t)0xFFFF) + (k - 1) * 65536 + off;
+        if (target >= seg + 65536 && target + 16 < seg + ((uintptr_t)32 << 20) && !(target >= a0 && target < a1)) {
+          const uintptr_t x = target ^ keys[1]; const unsigned sh = (unsigned)(keys[0] % 64);
+          forged = (uint64_t)((sh == 0 ? x : ((x << sh) | (x >> (64 - sh)))) + keys[0]);
+          probe(PR_misuse_detected, 0);
+        }
+      }
+    }
     memcpy(p, &forged, sizeof forged);              // the program overwrites the free-list link of the freed block
     H.misuse_expected++;
     expect_errors(EB_EFAULT);
